@@ -65,6 +65,24 @@ def gen_workload(rng, tier, big=False):
             w = ("bin", "=", ("col", 0), G.lit_int(rng.randint(1, nid[0])))
             sel = G.Select([("expr", ("col", 0)), ("expr", ("col", 2))], ("table", t), where=w)
             h.x(sel.sql(), sel.coq(), sorted_=True)
+    if rng.random() < 0.6:
+        # pages freed by a dropped table are recycled for a new one; the new root may leave the cache before it is written
+        t2 = G.Table(2, "t2", [("x", "INT", False, None), ("y", "TEXT", False, None)])
+        h.x(t2.create_sql(), t2.create_coq())
+        r2 = [[G.lit_int(i), G.lit_text(BIG[:rng.choice([10, 60, 150])])] for i in range(rng.choice([30, 120]))]
+        h.x(G.insert_sql(t2, r2), G.insert_coq(t2, r2), sorted_=True)
+        h.x("DROP TABLE t2", "SDrop 2")
+        h.simple("V", "AVacuum")
+        t3 = G.Table(3, "t3", [("x", "INT", False, None), ("y", "TEXT", False, None)])
+        h.x(t3.create_sql(), t3.create_coq())
+        if rng.random() < 0.5:
+            h.simple("F", "AFlush")
+        else:
+            h.x(q.sql(), q.coq(), sorted_=True)
+        r3 = [[G.lit_int(i), G.lit_text(BIG[:rng.choice([10, 60])])] for i in range(rng.choice([2, 40]))]
+        h.x(G.insert_sql(t3, r3), G.insert_coq(t3, r3), sorted_=True)
+        q3 = select_all(t3)
+        h.x(q3.sql(), q3.coq(), sorted_=True)
     h.x(q.sql(), q.coq(), sorted_=True)
     h.simple("O", "AReopen", "cache=10000")
     h.x(q.sql(), q.coq(), sorted_=True)
